@@ -82,7 +82,13 @@ class BeamStub:
         self.power = ex.real('power', pos=True)
         self.sigma = ex.real('sigma', pos=True)
         self.length = length
-        self.divergence_x, self.divergence_y = ex.real('div_x', nonneg=True), ex.real('div_y', nonneg=True)
+        # tan(divergence) is the primitive input (any non-negative value is the tangent of some divergence in [0, 90) degrees); the
+        # divergence itself is derived from it in the replay, so that the real tan() of the replay agrees with the counterexample
+        self.tanx, self.tany = ex.real('tan_div_x', nonneg=True), ex.real('tan_div_y', nonneg=True)
+        if ex.sym:
+            self.divergence_x, self.divergence_y = ex.real('div_x', nonneg=True), ex.real('div_y', nonneg=True)
+        else:
+            self.divergence_x, self.divergence_y = math.degrees(math.atan(self.tanx)), math.degrees(math.atan(self.tany))
         self.off = [ex.real('off_' + c) for c in 'xyz']
 
     def get_sigma(self):
@@ -105,7 +111,7 @@ SPECIES = {2: [(Dp, 1), (C, 6)], 3: [(Dp, 1), (C, 6), (Dp, 0)]}
                     ATT + '.SingleRayAttenuator._beam_stopping', 'cherab.core.utility.conversion.EvAmuToMS', 'cherab.core.utility.conversion.EvToJ'],
          cover=['attenuated'],
          bounds={'axis': 'beam length 1 m, attenuator step concrete per job (4, 5 or 9 axis nodes)', 'species': '2 or 3 (a neutral with null rate) species',
-                 'values': 'energy, power, sigma, divergences, beam placement (translation), species density / temperature / velocity profiles '
+                 'values': 'energy, power, sigma, divergences, clamp_sigma in [0.5, 8], beam placement (translation), species density / temperature / velocity profiles '
                            '(uninterpreted functions of position), stopping coefficients (non-negative uninterpreted) symbolic'},
          stubs=['scipy cumulative_trapezoid and raysect linear Interpolator1DArray: exact models', 'exp: uninterpreted with monotonicity; sqrt: root variable; tan: sin/cos'],
          outside=['linear interpolation between axis nodes is raysect\'s (modelled)', 'cross-section integral of the bivariate normal = 1 (stated lemma)',
@@ -115,6 +121,16 @@ def attenuation(ex, uni, step, nsp, stopping):
     mod = uni.load(ATT)
     L = 1.0
     beam = BeamStub(ex, L)
+    if ex.sym:
+        _libm_tan = mod.tan
+
+        def _tan(a):
+            # tan(DEGREES_TO_RADIANS * divergence) of the two beam divergences is the symbolic input itself
+            for dv, tv in ((beam.divergence_x, beam.tanx), (beam.divergence_y, beam.tany)):
+                if core.is_sym(a) and core.lift_real(a).eq(core.lift_real(mod.DEGREES_TO_RADIANS * dv)):
+                    return tv
+            return _libm_tan(a)
+        mod.tan = _tan
     species = [W.Species(ex, el, q) for el, q in SPECIES[nsp]]
     for s in species:
         s.distribution.pointwise = False
@@ -174,8 +190,7 @@ def attenuation(ex, uni, step, nsp, stopping):
     # transverse envelope: bivariate normal with sigma(z)^2 = sigma0^2 + (z tan(div))^2
     d2r = mod.DEGREES_TO_RADIANS
     ex.prove(abs(d2r / (math.pi / 180.0) - 1) < 1e-15, 'degrees-to-radians-constant')
-    tx = MATH.tan(d2r * beam.divergence_x)
-    ty = MATH.tan(d2r * beam.divergence_y)
+    tx, ty = beam.tanx, beam.tany
     sx2 = beam.sigma * beam.sigma + (zk * tx) * (zk * tx)
     sy2 = beam.sigma * beam.sigma + (zk * ty) * (zk * ty)
     sx, sy = MATH.sqrt(sx2), MATH.sqrt(sy2)
@@ -184,7 +199,7 @@ def attenuation(ex, uni, step, nsp, stopping):
     ex.prove(ex.eq(val, want), 'density==line-density*bivariate-normal(sigma_x(z),sigma_y(z))')
     # clamping
     att.clamp_to_zero = True
-    cs = ex.real('clamp_sigma', pos=True)
+    cs = ex.real('clamp_sigma', lo=0.5, hi=8)      # realistic clamp radii (default 5 sigma); far larger ones put exp(-r^2/2) below the double range and make counterexamples unreplayable
     att.clamp_sigma = cs
     v2 = att.density(x, y, zk)
     ex.prove(ex.eq(v2, ex.ite(r2 > cs * cs, 0, want)), 'clamp:zero-outside-clamp_sigma,unchanged-inside')
